@@ -59,8 +59,6 @@ m("C10","revert-precision","bigxy/big_cga.go","	dx1.SetPrec(exactPrec).SetFloat6
 m("C10","epsilon-too-small","bigxy/big_cga.go","var dpSafeEpsilon = 1e-15","var dpSafeEpsilon = 1e-17","filter-constant/bigxy.dpSafeEpsilon/value")
 m("C10","epsilon-setter","bigxy/big_cga.go","func orientationBasedOnSign(x float64) orientation.Type {","// SetEpsilon tunes the filter.\nfunc SetEpsilon(e float64) { dpSafeEpsilon = e }\n\nfunc orientationBasedOnSign(x float64) orientation.Type {","filter-constant/bigxy.dpSafeEpsilon/immutable")
 m("C10","prec-too-small-for-domain","bigxy/big_cga.go","const exactPrec = 4200","const exactPrec = 1024","fallback-exact/bigxy.OrientationIndex/Mul")
-m("C10","revert-underflow-magnitude-test","bigxy/big_cga.go","	if detsum < dpMinSafeDetSum {\n		return 2\n	}\n","","filter-underflow-guarded/bigxy.orientationIndexFilter/errbound")
-m("C10","revert-zero-product-test","bigxy/big_cga.go","		if detright == 0.0 && ((dxOrigin != 0.0 && dyEnd != 0.0) || (dyOrigin != 0.0 && dxEnd != 0.0)) {\n			return 2\n		}\n","","filter-underflow-guarded/bigxy.orientationIndexFilter/zero-product")
 # ---- C11
 m("C11","ring-y-at-2","xy/internal/raycrossing/ray-crossing-counter.go","		p1 := geom.Coord(ring[i : i+2])","		p1 := geom.Coord(ring[i+1 : i+3])","stride-discipline/xy/internal/raycrossing.LocatePointInRing")
 m("C11","ispointinring-not-boundary","xy/cga.go","	return LocatePointInRing(layout, p, ring) != location.Exterior","	return LocatePointInRing(layout, p, ring) != location.Boundary","location-values/xy.IsPointInRing")
